@@ -1,14 +1,14 @@
 CONFIG = dict(
     coqfiles=["Props/C02.v"],
     n_quick=288, n_thorough=6000, workers_quick=8,
-    rule="11 of 12 cases: a persistent store wired as in new_blob_access.go (sector 16/32, 2-4 sectors per block, old 1-2, current 0-2, new 1-2, spare 1-2 blocks, index of 5-31 records with "
+    rule="10 of 12 cases: a persistent store wired as in new_blob_access.go (sector 16/32, 2-4 sectors per block, old 1-2, current 0-2, new 1-2, spare 1-2 blocks, index of 5-31 records with "
          "maximum get attempts 2-8, raw or validating CAS read factory, 4-9 keys with 1-3 content versions of sizes 0, 1, sector-1, sector, sector+1, half block, block...) x a schedule of 18-48 "
          "(thorough -90) steps {whole upload, gated upload fed in chunks (2-3 in flight), read (refresh), FindMissing, clock advance, timer expiry per loop, DataSyncer completion ok/fail, "
          "1-6 directory operations of a state write with an optional failure} x 10-24 (thorough 20-60) crash experiments = (log position: k I/O operations into step j, incl. inside a step and "
          "inside the recovery reads) x (data sector writes since the begin of the last completed sync: all / none / random half / random quarter lost or kept / last k lost / last k kept / exactly one lost) "
          "x (index record writes: the same menu over ALL record writes of the life) x (0,1,2,3,all pending name-space operations took effect) x (content of an un-fsynced file: written / empty / an older "
          "state file); each experiment restarts a NEW store on the rebuilt media, probes every key (FindMissing+Get), runs a further schedule of 0-12 steps, re-reads every key, and nests (30%/20%) up to 3 "
-         "restarts deep; 1 of 12 cases: resolution differential (a state file of 0-7 blocks with epoch ids incl. 2^32-1 wrap, seeds incl. 0, one unattachable block in 7%; 2-10 records written through the "
+         "restarts deep; 2 of 12 cases: resolution differential (a state file of 0-7 blocks with epoch ids incl. 2^32-1 wrap, seeds incl. 0, one unattachable block in 7%; 2-10 records written through the "
          "real record array under the right / a stale / an off-by-one-bit seed, 18% with one flipped byte); non-trivial = some key served after a restart from a restored state file while some write "
          "was lost; distinct = distinct input",
     modelled=["data device: a write is durable once a Sync CALLED after it RETURNED nil, otherwise lost in any combination at sector granularity (sector writes atomic)",
